@@ -10,9 +10,9 @@ COMMON_STUB = ["upstream memory source (SimHeap: sim_lifo_allocator / sim_block_
 HIST_RULE = ("each run = one plan drawn from a 63-bit seed (SUT type and parameters, block source, placement "
              "policy of upstream blocks and of the allocator object, interface family mix, op mix, fault "
              "plan), executed against the real library; distinct = distinct run hash (sequence of op outcomes, "
-             "returned offsets and upstream ledger events); non-trivial = at least one upstream request after "
-             "the first successful allocation (growth mid-history) AND at least one release/unwind/iteration "
-             "switch")
+             "returned offsets and upstream ledger events); non-trivial = (at least one upstream request after "
+             "the first successful allocation, i.e. growth mid-history; for sources that cannot grow: at least "
+             "4 successful allocations) AND at least one release/unwind/iteration switch")
 
 PROPS = {
     "C01": dict(
